@@ -50,6 +50,7 @@ type HopConfig struct {
 	LMTP       bool
 	UTF8       bool
 	RequireTLS bool
+	DSN        bool        // the DSN extension (NOTIFY, ORCPT parameters of RCPT) is offered
 	TLS        *tls.Config // non-nil: STARTTLS is advertised
 	// the server drops idle connections after this long, announcing it with a 421 reply (0: never)
 	IdleTimeout time.Duration
@@ -98,6 +99,7 @@ func StartNextHop(cfg HopConfig) (*NextHop, error) {
 	s.LMTP = cfg.LMTP
 	s.EnableSMTPUTF8 = cfg.UTF8
 	s.EnableREQUIRETLS = cfg.RequireTLS
+	s.EnableDSN = cfg.DSN
 	s.TLSConfig = cfg.TLS
 	s.AllowInsecureAuth = true
 	if cfg.IdleTimeout > 0 {
@@ -197,6 +199,13 @@ func (s *hopSession) txDone() {
 		s.h.TxLog = append(s.h.TxLog, *s.tx)
 		s.tx = nil
 	}
+}
+
+// MailCount is the number of MAIL commands seen so far (HopTx.N of the next transaction).
+func (h *NextHop) MailCount() int {
+	h.mu.Lock()
+	defer h.mu.Unlock()
+	return h.ntx
 }
 
 // Transactions returns what the server saw, one entry per MAIL command (finished or abandoned ones).
